@@ -19,17 +19,20 @@ def levels(tier):
         return [
             {"name": "n2", "n": 2, "alphabet": ["we", "delwe", "page", "rule", "reopen", "clear"], "rule_patterns": ["path1"], "we_two_prefixes": True},
             {"name": "n3", "n": 3, "alphabet": ["we", "delwe", "page", "reopen", "clear"]},
+            {"name": "rule-restart", "n": 3, "prelude": [["page", 1, False]], "alphabet": ["rule", "reopen", "page"], "rule_patterns": ["path1"]},
+            {"name": "n4-small", "n": 4, "alphabet": ["we", "delwe", "reopen", "page"], "pool": POOL[:2]},
         ]
     return [
         {"name": "n3", "n": 3, "alphabet": alpha, "links_batch": 2, "rule_patterns": ["path1", "subdomain"], "we_two_prefixes": True},
         {"name": "n4", "n": 4, "alphabet": alpha, "links_batch": 1, "rule_patterns": ["path1"]},
-        {"name": "n5", "n": 5, "alphabet": ["we", "delwe", "page", "reopen", "clear"], "links_batch": 1},
+        {"name": "n5", "n": 5, "alphabet": ["we", "delwe", "page", "reopen"], "pool": POOL[:2]},
+        {"name": "rule-restart", "n": 4, "prelude": [["page", 1, False]], "alphabet": ["rule", "reopen", "page", "delwe"], "rule_patterns": ["path1", "subdomain"]},
     ]
 
 
 def harness(E):
     P = E.params
-    pool = typed_pool(E, POOL, L=1)
+    pool = typed_pool(E, P.get("pool", POOL), L=1)
     folder = E.fresh_folder("idx")
     ref = Ref()
     ref.default_rule = "domain"
@@ -37,7 +40,8 @@ def harness(E):
     opts = dict(P)
     opts["folder"] = folder
     h = History(E, t, ref, pool, P["alphabet"], opts)
-    high = 0            # highest id issued since creation / last clear
+    h.prelude(P.get("prelude"))
+    high = ref.last_id  # highest id issued since creation / last clear
     deleted = False
     reopened = False
     for i in range(P["n"]):
